@@ -494,7 +494,8 @@ fn run_ladder_job(j: &LadderJob, nsteps: usize, seed_xor: u64) -> Outcome {
                 }
             }
             if !bad.is_empty() {
-                failures.push(mk_fail("C05", None, format!("a ladder position does not sample its own thermal distribution: {}", bad.join("; ")), ctx));
+                let tag = if j.specs.iter().any(|s| s.hb) { "C02,C05" } else { "C05" };
+                failures.push(mk_fail(tag, None, format!("a ladder position does not sample its own thermal distribution: {}", bad.join("; ")), ctx));
             } else {
                 sample = Some(json!({"property": "C05", "context": ctx, "rung0_energy": [all[0][0].0, all[0][0].1]}));
             }
@@ -511,13 +512,18 @@ pub fn run(args: &Args) -> Value {
     let only: Option<String> = args.extra.iter().position(|a| a == "--only").and_then(|i| args.extra.get(i + 1).cloned());
     let wanted = |tags: &str| only.as_ref().map_or(true, |o| tags.split(',').any(|t| t == o));
     // ---------------- Ising sampler: default pipeline (C01), heat bath (C02), RVB (C03)
-    let variants: Vec<(&'static str, bool, u8)> = vec![("C01", false, 0), ("C02", true, 0), ("C02", true, 1), ("C03", false, 1), ("C03", false, 2), ("C03", true, 2)];
+    let variants: Vec<(&'static str, bool, u8)> = vec![("C01", false, 0), ("C02", true, 0), ("C02", true, 1), ("C03", false, 1), ("C03", false, 2), ("C03", true, 2),
+        // C12: started from the tiniest cutoffs (1 and 2) the default pipeline must reach the same averages
+        ("C12", false, 0)];
     let mut ising_jobs = vec![];
     for (prop, hb, rvb) in variants.iter() {
         for gi in 0..4usize {
             for hsign in [0.0, 1.0, -1.0] {
                 let mut spec = tiny_ising(&mut rng, gi, hsign);
                 spec.hb = *hb;
+                if *prop == "C12" {
+                    spec.cutoff = 1 + gi % 2;
+                }
                 let beta = [0.5, 1.0][rng.below(2) as usize];
                 let seed = rng.next();
                 if wanted(prop) {
@@ -619,7 +625,8 @@ pub fn run(args: &Args) -> Value {
         specs.truncate(keep);
         betas.truncate(keep);
         let seeds: Vec<u64> = (0..=keep).map(|_| rng.next()).collect();
-        if wanted("C05") {
+        // the two heat-bath ladders also decide C02: an exchange must leave every position with ITS OWN heat-bath table
+        if wanted("C05") || (li >= 6 && wanted("C02")) {
             ladder_jobs.push(LadderJob { li, par, specs, betas, seeds });
         }
     }
